@@ -30,7 +30,8 @@ Inductive call :=
 | Queued (k : ckind)       (* in the mailbox, not yet processed *)
 | InDial                   (* connect request accepted, dial task holds the reply channel *)
 | Accepted                 (* the shutdown request that broke the loop; answered at the end *)
-| Answered (ok : bool).
+| Answered (ok : bool)
+| Waiting (k : ckind).     (* issued while the bounded mailbox was full: the caller waits for room *)
 
 Record state := mkS {
   ph : mphase;
@@ -46,7 +47,9 @@ Record state := mkS {
 Definition init : state := mkS MLoop 0 [] [] [] 0 false 0.
 
 Inductive label :=
-| Submit (k : ckind)      (* an API call is issued (connect / shutdown) *)
+| Submit (k : ckind)      (* an API call is issued (connect / shutdown) and finds room in the mailbox *)
+| Issue (k : ckind)       (* an API call is issued and finds the mailbox full (the capacity is left open) *)
+| Admit                   (* the oldest waiting caller gets room: its request enters the mailbox *)
 | Process                 (* the loop takes the oldest queued request *)
 | Incoming                (* a new inbound connection starts its handshake *)
 | InboundDone (ok : bool) (peer : N)
@@ -105,6 +108,16 @@ Fixpoint first_queued (l : list call) : option (ckind * list call * list call) :
               end
   end.
 
+Fixpoint first_waiting (l : list call) : option (ckind * list call * list call) :=
+  match l with
+  | [] => None
+  | Waiting k :: r => Some (k, [], r)
+  | c :: r => match first_waiting r with
+              | Some (k, pre, post) => Some (k, c :: pre, post)
+              | None => None
+              end
+  end.
+
 Fixpoint answer_first_indial (ok : bool) (l : list call) : option (list call) :=
   match l with
   | [] => None
@@ -117,7 +130,7 @@ Definition drop_indials (l : list call) : list call :=
 
 Definition finish_calls (l : list call) : list call :=
   map (fun c => match c with
-                | Queued _ | InDial => Answered false
+                | Queued _ | InDial | Waiting _ => Answered false   (* a caller still waiting for room sees the receiver go *)
                 | Accepted => Answered true
                 | Answered b => Answered b
                 end) l.
@@ -138,6 +151,14 @@ Definition step (s : state) (l : label) : option state :=
   | Submit k =>
       if receiver_gone s then Some (set_calls s (calls s ++ [Answered false]))
       else Some (set_calls s (calls s ++ [Queued k]))
+  | Issue k =>
+      if receiver_gone s then Some (set_calls s (calls s ++ [Answered false]))
+      else Some (set_calls s (calls s ++ [Waiting k]))
+  | Admit =>
+      match first_waiting (calls s) with
+      | Some (k, pre, post) => Some (set_calls s (pre ++ Queued k :: post))
+      | None => None
+      end
   | Process =>
       if in_loop s then
         match first_queued (calls s) with
@@ -299,7 +320,7 @@ Fixpoint sum_weight (l : list handler) : nat :=
 Definition meas (s : state) : nat := rank (ph s) + inbound s + length (entries s) + sum_weight (hands s).
 
 Definition progress_label (l : label) : bool :=
-  match l with Submit _ => false | _ => true end.
+  match l with Submit _ | Issue _ | Admit => false | _ => true end.
 Definition count_progress (ls : list label) : nat := length (filter progress_label ls).
 
 (** Labels after which the manager task has yielded to the scheduler (so that a runtime that is
